@@ -49,4 +49,7 @@ def jobs(tier, ws, prop='C04'):
                 if tier != 'quick' or (pp == 4 and ver == 5):
                   js.append(mk('hdr_get_NC_name/oversize/c%d/p%d/v%d' % (ch, pp, ver), 'hdr_get_NC_name',
                              ['-DH_name', '-DFMTVER=%d' % ver, '-DNAME_OVERSIZE', '-DOVERSIZE_LOW=%d' % (1 + pp % 7)] + d, ['emaxname'], unwindset=['ncmpio_header_get.c:hdr_get_NC_name.0:4'], bound=b, prop=prop, object_bits=10))
+    if prop == 'C04':
+        import C19
+        js += [j for j in C19.var_jobs(tier, 'C04') if 'ndims2' in j.name or tier != 'quick']   # dimension ids decoded exactly, in order
     return js
